@@ -103,6 +103,7 @@ inductive Decn (α : Type) where
     classes have the 1e-10 guard) and UC, OHV (`guard = false`), `D` = `_ebv/_gebv/_gwgebv/_rbv/_embv/
     _ucmat/_ohvmat`;  `ocs C D`;  `mgr C`;  `meh C`;  `l1 V` (V[trait][marker][taxon]);
     `l2 C` (C[trait][row][taxon]);  `family D familyix nfam`;  `opv H` (H[phase][taxon][block][trait]);
+    `gb H nbestfndr` (genotype builder, same haplotype tensor);
     `pafd/pau/mogs geno ploidy mkrwt tfreq`. -/
 inductive Crit (α : Type) where
   | lin (guard : Bool) (D : List (List α))
@@ -113,6 +114,7 @@ inductive Crit (α : Type) where
   | l2 (C : List (List (List α)))
   | family (D : List (List α)) (fix : List Nat) (nfam : Nat)
   | opv (H : List (List (List (List α))))
+  | gb (H : List (List (List (List α)))) (nbest : Nat)
   | pafd (geno : List (List α)) (ploidy : Nat) (w tf : List (List α))
   | pau (geno : List (List α)) (ploidy : Nat) (w tf : List (List α))
   | mogs (geno : List (List α)) (ploidy : Nat) (w tf : List (List α))
@@ -146,6 +148,7 @@ def Crit.ncand : Crit α → Nat
   | .l2 C => ncols (C.headD [])
   | .family _ fix _ => fix.length
   | .opv H => (H.headD []).length
+  | .gb H _ => (H.headD []).length
   | .pafd g _ _ _ => g.length
   | .pau g _ _ _ => g.length
   | .mogs g _ _ _ => g.length
@@ -223,6 +226,24 @@ def opvSubset (H : List (List (List (List α)))) (S : List Nat) : List α :=
     (-((H.length : Nat) : α)) * rsum nblk (fun b =>
       maxL (H.flatMap fun Hp => S.map fun i => ((Hp.getD i []).getD b []).getD j 0))
 
+/-- Python's `a[st:k]` start index for `st = k - nbest` (a negative start counts from the end, clipped at 0) -/
+def pySliceStart (k nbest : Nat) : Nat :=
+  if nbest ≤ k then k - nbest else (if nbest - k ≤ k then k - (nbest - k) else 0)
+
+/-- numpy `.sort(0)` of a 1-D slice: ascending -/
+def sortAsc (l : List α) : List α := Np.stableSort (fun a c => !(decide (c < a))) l
+
+/-- GenotypeBuilderSubsetSelectionProblem.latentfn:
+    `bestphase = H[:,x,:,:].max(0); bestphase.sort(0); st = k - nbestfndr;`
+    `-(ploidy / nbestfndr) * bestphase[st:k,:,:].sum((0,1))` -/
+def gbSubset (H : List (List (List (List α)))) (nbest : Nat) (S : List Nat) : List α :=
+  let nblk := ((H.headD []).headD []).length
+  let ntrait := (((H.headD []).headD []).headD []).length
+  (List.range ntrait).map fun j =>
+    (-(((H.length : Nat) : α) / ((nbest : Nat) : α))) * rsum nblk (fun b =>
+      let best := S.map fun i => maxL (H.map fun Hp => ((Hp.getD i []).getD b []).getD j 0)
+      Np.sum ((sortAsc best).drop (pySliceStart S.length nbest)))
+
 /-- the part of a latentfn after the contribution vector has been formed
     (`contrib = 1/xsum * x` for the vector encodings) -/
 def core [HasSqrt α] : Crit α → List α → Option (List α)
@@ -249,6 +270,7 @@ def latent [HasSqrt α] (eps : α) : Crit α → Decn α → Option (List α)
       let familywt : List α := (List.range fix.length).map fun i => if S.contains i then indcontrib S else 0
       some (linSubset D S ++ (List.range nfam).map fun f => -(bincountAt fix familywt f))
   | .opv H, .subset S => some (opvSubset H S)
+  | .gb H nbest, .subset S => some (gbSubset H nbest S)
   | .pafd g p w tf, .subset S => some (pafdSubset g p w tf S)
   | .pau g p w tf, .subset S => some (pauSubset g p w tf S)
   | .mogs g p w tf, .subset S => some (mogsPau g p w tf S ++ pafdSubset g p w tf S)
@@ -353,6 +375,37 @@ def calcOhvmat (H : List (List (List (List α)))) (xmap : List (List Nat)) : Lis
 def calcEmbv (nrep : Nat) (tmaxs : List (List (List α))) (ntrait : Nat) : List (List α) :=
   tmaxs.map fun reps => (List.range ntrait).map fun j =>
     (reps.take nrep).foldl (fun avg r => avg + vget r j) 0 / (nrep : α)
+
+/-! ### RealLookAheadGeneralizedWeightedGenomicSelectionProblem (simulation with scripted mating) -/
+
+/-- `wgebv = Z_a.dot(u_a * numpy.power(fafreq, -alpha)).sum(1)` (`pw` = the power values, numpy.power trusted;
+    `fafreq[fafreq <= 0] = 1` is applied by the caller of numpy.power) -/
+def laScores (Z u pw : List (List α)) : List α :=
+  Z.map fun z => Np.sum ((List.range (ncols u)).map fun j =>
+    rsum z.length (fun m => vget z m * (ent u m j * ent pw m j)))
+
+/-- `sel = wgebv.argsort()[::-1][:nparent]` (the code shuffles `sel` afterwards: only the set matters) -/
+def laSelect (scores : List α) (nparent : Nat) : List Nat :=
+  ((Np.argsort (fun a b => !(decide (b < a))) scores).reverse).take nparent
+
+/-- `Z_a.dot(u_a).sum(1).mean()` of the last simulated generation -/
+def laGain (Z u : List (List α)) : α :=
+  Np.sum (Z.map fun z => Np.sum ((List.range (ncols u)).map fun j =>
+    rsum z.length (fun m => vget z m * ent u m j))) / ((Z.length : Nat) : α)
+
+/-- `(float(ploidy) * u_a * numpy.where(u_a > 0, afreq > 0, afreq >= 1)).sum()` with
+    `afreq = pgmat.afreq()` = column sums / (ploidy · ntaxa) -/
+def laUsl (ploidy : Nat) (Z u : List (List α)) : α :=
+  rsum u.length (fun m =>
+    let p := Np.sum (Z.map fun z => vget z m) / ((ploidy * Z.length : Nat) : α)
+    Np.sum ((List.range (ncols u)).map fun j =>
+      let um := ent u m j
+      ((ploidy : Nat) : α) * um * b2s (if 0 < um then decide (0 < p) else !(decide (p < 1)))))
+
+/-- latentfn: `[-gain/nsimul, -usl/nsimul]` over the last generations of the `nsimul` simulations -/
+def laLatent (ploidy : Nat) (u : List (List α)) (finals : List (List (List α))) : List α :=
+  let ns : α := ((finals.length : Nat) : α)
+  [-(finals.foldl (fun g Z => g + laGain Z u) 0 / ns), -(finals.foldl (fun g Z => g + laUsl ploidy Z u) 0 / ns)]
 
 end scalar
 end Selection
